@@ -626,9 +626,19 @@ func (x *XRefParser) ParseAllXRefs() ([]*XRefTable, error) {
 
 	tables := []*XRefTable{mainTable}
 
+	// Offsets of the sections already parsed. A damaged or hostile file can
+	// chain /Prev in a loop; following it again would never terminate.
+	visited := map[int64]bool{x.startPos: true}
+
 	// Parse previous XRefs
 	currentTable := mainTable
 	for {
+		if prev, ok := currentTable.Trailer.Get("Prev").(Int); ok {
+			if visited[int64(prev)] {
+				break // circular /Prev chain: every section has been read once
+			}
+			visited[int64(prev)] = true
+		}
 		prevTable, err := x.ParsePrevXRef(currentTable)
 		if err != nil {
 			return nil, fmt.Errorf("failed to parse prev xref: %w", err)
